@@ -65,6 +65,27 @@ pub fn log_event(fmt: &'static str, args: &[u64]) {
     }
 }
 
+/// an event that is not console output: a call of one of the driver's environment stubs
+/// (verif_drv); `kind` >= 10 identifies the stub, `args` are what it was called with
+pub fn log_marker(kind: u8, args: &[u64]) {
+    unsafe {
+        LOG_TOTAL += 1;
+        if LOG_LEN >= LOG_CAP {
+            LOG_OVERFLOW = true;
+            return;
+        }
+        LOG_FMT[LOG_LEN] = "<stub>";
+        LOG_KIND[LOG_LEN] = kind;
+        let mut k = 0;
+        while k < args.len() && k < 12 {
+            LOG_ARGS[LOG_LEN * 12 + k] = args[k];
+            k += 1;
+        }
+        LOG_NARGS[LOG_LEN] = args.len();
+        LOG_LEN += 1;
+    }
+}
+
 pub trait ToLog {
     fn to_log(&self) -> u64;
 }
@@ -77,9 +98,14 @@ impl ToLog for std::io::Error {
         0
     }
 }
-impl ToLog for &str {
+impl ToLog for str {
     fn to_log(&self) -> u64 {
         self.len() as u64
+    }
+}
+impl<T: ToLog + ?Sized> ToLog for &T {
+    fn to_log(&self) -> u64 {
+        (**self).to_log()
     }
 }
 impl ToLog for String {
@@ -103,11 +129,74 @@ pub fn stdin_set(line: [u8; LINE_MAX], len: usize, newline: bool) {
         STDIN_LEN = len;
         STDIN_NEWLINE = newline;
         STDIN_READS = 0;
+        SEQ_N = 0;
+        SEQ_MODE = false;
     }
+}
+
+// sequence mode (prompt loop): SEQ_N > 0 lines are available, then end of input
+pub const SEQ_MAX: usize = 4;
+pub static mut SEQ_N: usize = 0;
+pub static mut SEQ_MODE: bool = false;
+pub static mut SEQ_LINE: [[u8; LINE_MAX]; SEQ_MAX] = [[0; LINE_MAX]; SEQ_MAX];
+pub static mut SEQ_LEN: [usize; SEQ_MAX] = [0; SEQ_MAX];
+pub static mut SEQ_NL: [bool; SEQ_MAX] = [false; SEQ_MAX];
+pub static mut SEQ_EOF_READS: usize = 0;
+
+pub fn stdin_seq_reset() {
+    unsafe {
+        SEQ_N = 0;
+        SEQ_MODE = true;
+        STDIN_READS = 0;
+        SEQ_EOF_READS = 0;
+    }
+}
+/// append one line to the scripted input (a line of length 0 without newline cannot be expressed:
+/// that is end of input, which follows the last scripted line)
+pub fn stdin_seq_push(line: [u8; LINE_MAX], len: usize, newline: bool) {
+    unsafe {
+        if SEQ_N < SEQ_MAX {
+            SEQ_LINE[SEQ_N] = line;
+            SEQ_LEN[SEQ_N] = len;
+            SEQ_NL[SEQ_N] = newline;
+            SEQ_N += 1;
+        }
+    }
+}
+pub fn stdin_reads() -> usize {
+    unsafe { STDIN_READS }
+}
+pub fn stdin_eof_reads() -> usize {
+    unsafe { SEQ_EOF_READS }
 }
 
 pub fn read_line(buf: &mut String) -> std::io::Result<usize> {
     unsafe {
+        if SEQ_MODE {
+            let r = STDIN_READS;
+            STDIN_READS += 1;
+            log_marker(18, &[r as u64]);
+            if r >= SEQ_N {
+                SEQ_EOF_READS += 1;
+                // end of input is permanent.  A caller that has already read past it twice gets "n": a harness
+                // device that bounds a loop which ignores end of input (by then the obligation
+                // "no read after end of input" is violated, whatever happens next)
+                if SEQ_EOF_READS >= 3 {
+                    buf.push('n');
+                    return Ok(1);
+                }
+                return Ok(0);
+            }
+            let mut i = 0;
+            while i < SEQ_LEN[r] {
+                buf.push((SEQ_LINE[r][i] & 0x7F) as char);
+                i += 1;
+            }
+            if SEQ_NL[r] {
+                buf.push('\n');
+            }
+            return Ok(SEQ_LEN[r] + SEQ_NL[r] as usize);
+        }
         STDIN_READS += 1;
         let mut i = 0;
         while i < STDIN_LEN {
